@@ -52,6 +52,8 @@ def replay(rec, ctx):
             try:
                 if e["op"] == "read":
                     obj.bins, obj.mask, obj.voxel_map, obj.invert_voxel_map()
+                    if obj.bins > 0:
+                        _trace(world, obj)          # the object is used (rays traced through it) before the next change
                 elif e["m"] == "wrong-shape":
                     setattr(obj, e["op"], np.zeros((2, 3, 1), dtype=(np.int32 if e["op"] == "voxel_map" else bool)))
                 elif e["op"] == "voxel_map":
